@@ -275,6 +275,78 @@ def run(ctx: Ctx):
                     ok, got = False, type(x).__name__
                 if not ok:
                     ctx.fail("P:C02:value-equal", {"n": n, "value": repr(v), "provider": prov, "early_year": True}, repr(got)[:120], None)
+            # more than one value per kind: magnitudes and spellings the representative value does not have
+            from icalendar.prop import vFloat
+            variants = [("GEO", (1 / 81000, -4.5e-07)), ("GEO", (-89.99999999, 179.123456789012)), ("GEO", (0.0, 1e-10)), ("GEO", (6.62607015e-34, 1.5e22)),
+                        ("PRIORITY", 0), ("SEQUENCE", 2 ** 31), ("PERCENT-COMPLETE", 100),
+                        ("DURATION", timedelta(weeks=-1)), ("DURATION", timedelta(0)), ("DURATION", timedelta(days=1, seconds=1)),
+                        ("DURATION", -timedelta(hours=25, seconds=59)), ("TRIGGER", timedelta(seconds=-1)),
+                        ("DTSTART", datetime(2024, 12, 31, 23, 59, 59)), ("DTSTART", date(9999, 12, 31)), ("DTSTART", datetime(1, 1, 1, 0, 0, 0, tzinfo=UTC)),
+                        ("TZOFFSETTO", timedelta(hours=14)), ("TZOFFSETTO", -timedelta(hours=12, minutes=30, seconds=15)),
+                        ("SUMMARY", ""), ("SUMMARY", " leading and trailing "), ("SUMMARY", "tab\tand \u2028 separators"),
+                        ("CATEGORIES", ["a", "", "c"]), ("CATEGORIES", ["only"]), ("RESOURCES", ["x y", "z;w"])]
+            for n, v in variants:
+                comp = comp_for(n)
+                ctx.evaluations += 1
+                ctx.case(("variant", n, repr(v), prov), True)
+                try:
+                    comp.add(n, v)
+                    got = type(comp).from_ical(comp.to_ical()).get(n)
+                    if isinstance(v, tuple) and n == "GEO":
+                        ok = (float(got.latitude).hex(), float(got.longitude).hex()) == (float(v[0]).hex(), float(v[1]).hex())
+                    elif isinstance(v, vFloat):
+                        ok = float(got).hex() == float(v).hex()
+                    elif isinstance(v, (vInt, int)) and not isinstance(v, bool):
+                        ok = isinstance(got, int) and int(got) == int(v)
+                    elif isinstance(v, timedelta):
+                        ok = (got.td if hasattr(got, "td") else got.dt) == v
+                    elif isinstance(v, (date, datetime)):
+                        ok = same_dt(v, got.dt)
+                    elif isinstance(v, list):
+                        ok = ([str(c) for c in got.cats] if hasattr(got, "cats") else [str.__str__(x) for x in got]) == v
+                    else:
+                        ok = str.__str__(got) == v
+                except Exception as x:   # noqa: BLE001
+                    ok, got = False, type(x).__name__ + ": " + str(x)[:80]
+                if not ok:
+                    ctx.fail("P:C02:value-equal", {"n": n, "value": repr(v), "provider": prov, "variant": True}, repr(got)[:160], None)
+            # tzinfo objects of every family, several of each family one after the other in one process: the value read back
+            # is the same instant with the same wall-clock fields (identification of the zone must not depend on what was
+            # identified before)
+            from dateutil import tz as dtz
+            from datetime import timezone as _tz
+            import pytz as _pytz
+            kinds = [("tzrange-EST", lambda: dtz.tzrange("EST", -18000)), ("tzrange-CET", lambda: dtz.tzrange("CET", 3600)),
+                     ("tzrange-CET-CEST", lambda: dtz.tzrange("CET", 3600, "CEST")), ("tzrange-JST", lambda: dtz.tzrange("JST", 32400)),
+                     ("tzoffset-3600", lambda: dtz.tzoffset(None, 3600)), ("tzoffset-BRST", lambda: dtz.tzoffset("BRST", -10800)),
+                     ("gettz-Vienna", lambda: dtz.gettz("Europe/Vienna")), ("gettz-NewYork", lambda: dtz.gettz("America/New_York")),
+                     ("tzstr-EST5EDT", lambda: dtz.tzstr("EST5EDT")), ("stdlib-utc", lambda: _tz.utc), ("stdlib-plus5", lambda: _tz(timedelta(hours=5))),
+                     ("stdlib-minus3", lambda: _tz(timedelta(hours=-3))), ("pytz-utc", lambda: _pytz.utc), ("dateutil-UTC", lambda: dtz.UTC),
+                     ("zoneinfo-Tokyo", lambda: ZoneInfo("Asia/Tokyo")), ("pytz-fixed-60", lambda: _pytz.FixedOffset(60)),
+                     ("stdlib-plus0130", lambda: _tz(timedelta(minutes=90)))]
+            for rounds in range(2 if ctx.quick else 12):
+                order = list(kinds)
+                rnd.shuffle(order)
+                for name, mk in order:
+                    z = mk()
+                    for wall in (datetime(2024, 7, 1, 12, 0), datetime(2024, 1, 15, 8, 30)):
+                        d = wall.replace(tzinfo=z)
+                        ctx.evaluations += 1
+                        ctx.case(("tzkind", name, prov, wall.month), True)
+                        try:
+                            comp = Event()
+                            comp.add("dtstart", d)
+                            comp.add("rdate", [d])
+                            back = Event.from_ical(comp.to_ical())
+                            g1, g2 = back["DTSTART"].dt, back["RDATE"].dts[0].dt
+                            ok = all(g.tzinfo is not None and g == d and g.replace(tzinfo=None) == wall for g in (g1, g2))
+                            obs = [repr(g1), repr(g2)]
+                        except Exception as x:   # noqa: BLE001
+                            ok, obs = False, type(x).__name__ + ": " + str(x)[:80]
+                            g1 = None
+                        if not ok:
+                            ctx.fail("P:C02:zoned-value-equal", {"tzkind": name, "wall": wall.isoformat(), "provider": prov,
+                                                                 "naive_back": bool(g1 is not None and g1.tzinfo is None)}, obs, repr(d))
             for n, k in (("COMMENT", "text"), ("ATTENDEE", "cal-address"), ("RDATE", "dt-list-zoned"), ("EXDATE", "date-list"), ("ATTACH", "uri")):
                 comp = comp_for(n)
                 vals = []
